@@ -105,8 +105,8 @@ Fixpoint trim_left_crlf (s : str) : str :=
   | b :: r => if is_crlf b then trim_left_crlf r else s
   | [] => []
   end.
-(* strings.TrimFunc(raw, cutCRFunc) *)
-Definition trim_crlf (s : str) : str := rev (trim_left_crlf (rev (trim_left_crlf s))).
+(* strings.TrimFunc(raw, cutCRFunc); rev' is the linear-time reverse (= rev) *)
+Definition trim_crlf (s : str) : str := rev' (trim_left_crlf (rev' (trim_left_crlf s))).
 
 (* splitParams: strings.Split on SPACE, empty pieces dropped *)
 Definition split_params (s : str) : list str :=
